@@ -11,15 +11,15 @@ HARNESSES = [
     H('gf_vect_mul_init', ['C12'], 'ec/gf_scalar.c', EC, enforce='gf_vect_mul_init', also=['C05', 'C15'],
       timeout=300, expect=['postcondition'], replay=('gf.c', 'gf_vect_mul_init')),
     # documented build option GF_LARGE_TABLES: 64 KiB product table / 256-entry inverse table
-    H('gf_mul_large_tables', ['C12'], 'ec/gf_scalar.c', EC, enforce='gf_mul', entry='h_gf_mul', tier='thorough',
-      defines=['GF_LARGE_TABLES'], timeout=3000, expect=['postcondition'], replay=('gf.c', 'gf_mul')),
-    H('gf_inv_large_tables', ['C12'], 'ec/gf_scalar.c', EC, enforce='gf_inv', entry='h_gf_inv', tier='thorough',
+    H('gf_mul_large_tables', ['C12'], 'ec/gf_scalar.c', EC, enforce='gf_mul', entry='h_gf_mul', solver='cadical',
+      defines=['GF_LARGE_TABLES'], timeout=1200, expect=['postcondition'], replay=('gf.c', 'gf_mul')),
+    H('gf_inv_large_tables', ['C12'], 'ec/gf_scalar.c', EC, enforce='gf_inv', entry='h_gf_inv',
       defines=['GF_LARGE_TABLES'], timeout=1200, expect=['postcondition'], replay=('gf.c', 'gf_inv')),
     # the byte-wise #else branch of gf_vect_mul_init (32-bit / big-endian builds), selected by overriding
     # the compiler's __BYTE_ORDER__ for this TU only (the branch itself is endian-independent)
     H('gf_vect_mul_init_bytewise', ['C12'], 'ec/gf_scalar.c', EC, enforce='gf_vect_mul_init',
-      entry='h_gf_vect_mul_init', tier='thorough', defines=['__BYTE_ORDER__=__ORDER_BIG_ENDIAN__'],
+      entry='h_gf_vect_mul_init', defines=['__BYTE_ORDER__=__ORDER_BIG_ENDIAN__'],
       timeout=600, expect=['postcondition'], replay=('gf.c', 'gf_vect_mul_init')),
     H('gf_table_gfni', ['C12'], 'ec/gf_scalar.c', EC, timeout=600, expect=['assertion'], min_obligations=1),
-    H('spec_field_axioms', ['C12'], 'ec/gf_scalar.c', EC, timeout=600, expect=['assertion'], min_obligations=4),
+    H('spec_field_axioms', ['C12'], 'ec/gf_scalar.c', EC, timeout=600, solver='cadical', expect=['assertion'], min_obligations=4),
 ]
